@@ -252,6 +252,11 @@ class DictReader:
         """
         self.parsed_doc = parsed_doc
 
+        if not isinstance(self.parsed_doc, dict):
+            msg = "Invalid odML document: expected a dictionary, got '%s'" % \
+                  type(self.parsed_doc).__name__
+            raise ParserException(msg)
+
         # Parse only odML documents of supported format versions.
         if 'Document' not in self.parsed_doc:
             msg = "Missing root element 'Document'"
@@ -268,6 +273,9 @@ class DictReader:
             raise InvalidVersionException(msg)
 
         self.parsed_doc = self.parsed_doc['Document']
+        if not isinstance(self.parsed_doc, dict):
+            msg = "Invalid odML document: root element 'Document' is not a dictionary"
+            raise ParserException(msg)
 
         doc_attrs = {}
         doc_secs = []
